@@ -152,7 +152,10 @@ fn check_one(ctx: &Ctx, r: &Res) {
             // zero / infinity present: only the obvious cases
             let zeros = l.iter().any(|x| *x == 0.0);
             let infs = l.iter().any(|x| x.is_infinite());
-            if zeros && !infs && l.iter().all(|x| x.abs() < 1e100 || *x == 0.0) && prod != 0.0 {
+            // (only when no partial product of the non-zero elements can overflow in any order:
+            // inf * 0 = NaN is what sequential IEEE multiplication gives then)
+            let log_sum: f64 = l.iter().filter(|x| **x != 0.0 && x.abs() > 1.0).map(|x| x.abs().log2()).sum();
+            if zeros && !infs && log_sum < 900.0 && l.iter().all(|x| x.abs() < 1e100 || *x == 0.0) && prod != 0.0 {
                 viol("prod", "0".into(), format!("{}", prod));
             }
             if zeros && infs && !prod.is_nan() && l.iter().all(|x| x.abs() > 1e-100 || *x == 0.0) {
@@ -278,6 +281,24 @@ pub fn run(ctx: &Ctx, replay: Option<&J>) -> i32 {
             }
         }
     }
+    // size ladder: the same distinct-value arrangements at sizes around powers of two and of ten,
+    // for a handful of strides
+    {
+        fn gcd(a: usize, b: usize) -> usize {
+            if b == 0 { a } else { gcd(b, a % b) }
+        }
+        let sizes: &[usize] = ctx.tier.pick(&[257, 1025][..], &[100, 255, 256, 257, 1000, 1023, 1024, 1025, 4096, 4097, 10001][..]);
+        for &n in sizes {
+            for a in [1usize, n - 1, 7, 101, n / 2 + 1, n / 3 + 1] {
+                if a == 0 || a >= n || gcd(a, n) != 1 {
+                    continue;
+                }
+                for b in [0usize, n / 2] {
+                    lists.push((0..n).map(|i| ((a * i + b) % n) as f64 * 0.5 - (n / 4) as f64).collect());
+                }
+            }
+        }
+    }
     let results: Vec<Res> = par_map(&lists, |l| {
         let src = program(l);
         match eval_fresh(&src) {
@@ -343,7 +364,7 @@ pub fn run(ctx: &Ctx, replay: Option<&J>) -> i32 {
     finish(
         ctx,
         "exploration",
-        "all number lists of length 1..4 (quick) / 1..5 (thorough) over a 9-value alphabet plus periodic extensions to 6..50, a rounding family and lists of 12..64 (thorough 8..128) distinct values in every affine arrangement i -> (a*i+b) mod n; per list one program evaluating sum/prod/avg/min/max/median in the three calling conventions and percentile at 13 p values; references computed by the harness on the same doubles; permutation invariance by grouping lists by multiset; distinct = distinct lists",
+        "all number lists of length 1..4 (quick) / 1..5 (thorough) over a 9-value alphabet plus periodic extensions to 6..50, a rounding family and lists of 12..64 (thorough 8..128) distinct values in every affine arrangement i -> (a*i+b) mod n, and a size ladder (257, 1025; thorough 100..10001 around powers of two and ten) for six strides; per list one program evaluating sum/prod/avg/min/max/median in the three calling conventions and percentile at 13 p values; references computed by the harness on the same doubles; permutation invariance by grouping lists by multiset; distinct = distinct lists",
         true,
         None,
     )
